@@ -21,7 +21,7 @@ out = ["# Seeded changes", "",
        "then applied to /repo, checked with `bin/check <property>` (quick tier, seed 1) and removed again. `patch.diff` applies with",
        "`git -C /repo apply`; `demo_test.go.txt` is the demonstration; `detected-<id>.json` the replay the check produced.",
        "`r2-*` are from the second round, whose agents were asked to avoid the most obvious code site; `r3-*` (10 properties) and",
-       "`r4-*` (12 properties) from two later rounds with the same instruction. A change whose confirmation fails (the suite does not",
+       "`r4-*` (12 properties) and `r5-*` (8 properties) from later rounds with the same instruction. A change whose confirmation fails (the suite does not",
        "pass with it on the current tree) is listed as not confirmed and not counted.", "",
        "| change | property | what was changed | caught by its property's quick check | first report |", "|---|---|---|---|---|"]
 for r in rows:
